@@ -31,7 +31,19 @@ ReqSeq == SetToSeq(Reqs)
 
 \* JSON-friendly form of an outcome
 SelJ(S)  == SetToSeq({[r |-> s.r, norm |-> s.norm, params |-> SetToSeq(s.params)] : s \in S})
-OutJ(o, v) == [sel |-> SelJ(o.sel), dsel |-> SelJ(o.dsel), v |-> v]
+OutJ(o, v, cls) == [sel |-> SelJ(o.sel), dsel |-> SelJ(o.dsel), v |-> v, cls |-> SetToSeq(cls)]
+
+\* input class of a case (for the coverage report of the driver; not part of any verdict): which kind of
+\* declared pattern the model selected and whether the two readings of "most specific" differ
+Classes(D, m, u, o) ==
+    (IF o.sel = {} THEN {"none"} ELSE
+       UNION {LET P == {d.p : d \in {e \in D : Render(e.p) = s.norm}} IN
+              UNION {(IF EndsWild(p) THEN (IF MatchesStrict(p, u) THEN {"wild-tail"} ELSE {"wild-zero"})
+                      ELSE IF ParamPositions(p) # {} THEN {"param"} ELSE {"exact-literal"})
+                     \cup (IF ParamPositions(p) # {} /\ EndsWild(p) THEN {"param+wild"} ELSE {}) : p \in P}
+              : s \in o.sel})
+    \cup (IF WinAll(D, m, u, 0) # WinOwn(D, m, u, 0) THEN {"method-hidden"} ELSE {})
+    \cup (IF Cardinality({d \in D : Matches(d.p, u)}) >= 2 THEN {"overlap"} ELSE {})
 
 Group(t) ==
     LET ds   == DeclsOf(t)
@@ -48,7 +60,7 @@ Group(t) ==
                      LET b == Build(Apply(ds, ords[oi])) IN
                      [ri \in 1..Len(ReqSeq) |->
                         LET o == IOut(b, D, ReqSeq[ri].m, ReqSeq[ri].u)
-                        IN  OutJ(o, Verdict(D, ReqSeq[ri].m, ReqSeq[ri].u, o))]]]
+                        IN  OutJ(o, Verdict(D, ReqSeq[ri].m, ReqSeq[ri].u, o), Classes(D, ReqSeq[ri].m, ReqSeq[ri].u, o))]]]
 
 Count(g, v) == Cardinality({<<oi, ri>> \in (1..Len(g.orders)) \X (1..Len(g.reqs)) : g.exp[oi][ri].v = v})
 Summary(g) ==
